@@ -65,6 +65,19 @@ def adjacency_symmetry(ctx: Ctx, f, search, oid: str, build_scope=None):
             fwd = True
         if key == (vvar, uvar):
             rev = True
+    # the reverse key is materialised for every arc: unconditionally, or only skipping arcs whose reverse key exists
+    from sa.guards import GuardView, atom_of
+
+    fcfg_ = cfg_of(f.node)
+    fgv_ = GuardView(fcfg_)
+    for s_ in ast.walk(outer):
+        t_ = None
+        if isinstance(s_, (ast.Assign, ast.AugAssign)):
+            t_ = s_.targets[0] if isinstance(s_, ast.Assign) else s_.target
+        if t_ is not None and isinstance(t_, ast.Subscript) and isinstance(t_.value, ast.Subscript) and isinstance(t_.value.value, ast.Name) and t_.value.value.id == cont and (ast.unparse(t_.value.slice), ast.unparse(t_.slice)) == (vvar, uvar):
+            at_ = {a for a in fgv_.guard_atoms(fcfg_.node_of(s_), stable_only=False, after_loops=False) if not a.startswith("IN-LOOP:")}
+            okr = at_ <= {atom_of(f"{uvar} not in {cont}[{vvar}]")}
+            ctx.ob(oid, "R18 SIBLING-AGREEMENT (policy)", f, f"the reverse key `{cont}[{vvar}][{uvar}]` is written for every input arc", okr, f"only under {sorted(at_)}: an arc whose reverse key is skipped can never be cancelled", node=s_)
     ctx.ob(oid, "R18 SIBLING-AGREEMENT (policy)", f, f"search adjacency `{cont}` is keyed with the forward orientation of every arc", fwd, "", node=outer)
     ctx.ob(oid, "R18 SIBLING-AGREEMENT (policy)", f, f"search adjacency `{cont}` is keyed with the reverse orientation of every arc", rev, f"the path search iterates the keys of `{cont}[node]`: without `{cont}[{vvar}][{uvar}]` a reverse residual arc exists only if the input contains the opposite arc, so flow cannot be cancelled and the value can stay below the maximum", node=outer)
     return cont
@@ -230,6 +243,11 @@ def _v_prune_unreachable(tree):
     M.replace_stmt(g, lambda s: isinstance(s, ast.For) and M.src_is(s.iter, "graph[u]"), lambda s: M.stmts("if u not in reachable:\n    continue") + [s])
 
 
+def _v_reverse_key_first_time_only(tree):
+    g = M.find_func(tree, "max_flow")
+    M.replace_stmt(g, lambda s: M.src_is(s, "capacity[v][u] += 0"), M.stmts("if v not in capacity:\n    capacity[v][u] = 0"))
+
+
 def _t_reformat(tree):
     pass
 
@@ -252,6 +270,7 @@ VARIANTS = [
     M.Variant("augmentation never cancels reverse flow", FL, _v_no_cancel, "C08-O3"),
     M.Variant("dead-end set remembered from one search to the next (seed C08-D)", FL, _v_dead_end_memory, "C08-O5"),
     M.Variant("arcs pruned by a source-reachability pre-pass that stops at zero-capacity arcs (seed C08-C)", FL, _v_prune_unreachable, "C08-O5"),
+    M.Variant("reverse residual key created only the first time a node is seen (seed C08-E)", FL, _v_reverse_key_first_time_only, "C08-O1"),
     M.Variant("twin: reformat", FL, _t_reformat, None),
     M.Variant("twin: explicit symmetric adjacency sets iterated by the search", FL, _t_adj_sets, None),
 ]
